@@ -3,6 +3,7 @@ import OdlModel.Model.Deriv
 import OdlModel.Model.DerivLeaves
 import OdlModel.Model.DerivLeafComp
 import OdlModel.Model.DerivLin
+import OdlModel.Model.DerivUfuncComp
 import OdlModel.Gen.UfuncDeriv
 open OdlModel OdlModel.Deriv
 
@@ -247,6 +248,28 @@ def doLin (l : Line) : Option String := do
   let d := vecOfF ds
   some s!"ok dom={j.dom} ran={j.ran} val={showFs j.ran (j.run x)} dval={showFs j.ran ((j.deriv x).run d)}"
 
+
+/-! `ucomp name=<ufunc> u=<tree> x=<vec> d=<vec>`: `OperatorComp(ufunc(rn(n)), tree)`, tree at `Rat`, ufunc and
+the GENERATED derivative table at `Float`: `ok dom=N ran=N val=<op(x)> dval=<op.derivative(x)(d)>`,
+`err:deriv`, `err:wf`. -/
+def doUcomp (l : Line) : Option String := do
+  let name ← l.get? "name"
+  let f ← OdlModel.UfuncDeriv.Fn.ofName? name
+  let (_, e) ← OdlModel.Gen.UfuncDeriv.table.find? (fun p => p.1 = f)
+  let u ← l.get? "u"
+  let (i, rest) ← parseTree (u.splitOn "|")
+  if !rest.isEmpty then none
+  let xs ← l.rats? "x"
+  let ds ← l.rats? "d"
+  if xs.length ≠ i.dom || ds.length ≠ i.dom then none
+  if !ucompWf i then return "err:wf"
+  let x := vecOf xs
+  let d := vecOf ds
+  let head := s!"dom={i.dom} ran={i.ran} val={showFs i.ran (ucompRun ratFloat f.float i x)}"
+  match ucompDeriv ratFloat (fun t => e.evalF f t) i x d with
+  | none => some s!"err:deriv {head}"
+  | some v => some s!"ok {head} dval={showFs i.ran v}"
+
 def handle (l : Line) : Option String :=
   match l.op with
   | "deriv" => doDeriv l
@@ -254,6 +277,7 @@ def handle (l : Line) : Option String :=
   | "leaf" => doLeaf l
   | "leafcomp" => doLeafComp l
   | "lin" => doLin l
+  | "ucomp" => doUcomp l
   | _ => none
 
 def main : IO Unit := driverLoop handle
